@@ -164,27 +164,35 @@ def b5(ctx):
         ev, res = ctx.eval(b)
         n = ("param", 1, "len")
         ws = [e for e in res.log if is_raw_write(e)]
-        ok_n = len(ws) == 2
-        yield Ob(key_of("C14-B5", b.path, "two-arms"), ok_n, "two zeroing arms found (%d)" % len(ws), b.loc())
+        # one case per zeroing write, or per incoming edge when a single write takes (start, count) from an own-frame join
+        cases = []
+        for e in ws:
+            for (dst_, cnt_), fs in split_on_own_phis(ctx, ev, res, e, [e["dst"], e["count"]]):
+                cases.append((e, dst_, cnt_, set(canon(f, IMMUT) for f in fs)))
+        ok_n = len(cases) == 2
+        yield Ob(key_of("C14-B5", b.path, "two-arms"), ok_n, "two zeroing cases found (%d write(s), %d case(s))" % (len(ws), len(cases)), b.loc())
         ls = len_stores(res)
         yield Ob(key_of("C14-B5", b.path, "len"), len(ls) == 1 and ls[0]["value"] == n, "len := n", b.loc())
-        for e in ws:
-            order, fs = order_for(ctx, ev, e, immut=IMMUT)
+        kinds = []
+        for e, dst_, cnt, fs in cases:
+            order = Order(fs)
             okcap = order.le(n, cap_term())
             yield Ob(key_of("C14-B5", b.path, "cap-guard"), okcap, "zeroing dominated by n <= capacity()", ctx.loc(e))
-            dst = cz(e["dst"])
+            dst = cz(dst_)
+            cnt = cz(cnt)
             # dst = base + ptr_offset + start ; count = end - start with {start,end} = {old,n}
-            cnt = e["count"]
             grow = order.le(len0(), n) and not order.le(n, len0())
+            kinds.append(grow)
             start, end = (len0(), n) if grow else (n, len0())
             ok_c = term_eq(cnt, sub(end, start)) and e["byte"] == const(0)
             ok_d = mentions(dst, start) or (start == n and mentions(dst, n))
-            off = None
             if isinstance(dst, Lin):
                 rest = sub(dst, start)
                 ok_d = isinstance(rest, (Lin, tuple)) and not mentions(rest, len0()) and not mentions(rest, n)
             yield Ob(key_of("C14-B5", b.path, "grow" if grow else "shrink"), ok_c and ok_d,
                      "zeroes [%s, %s): count=%s dst=%s" % (show(start), show(end), show(cnt), short(dst, 120)), ctx.loc(e))
+        if ok_n:
+            yield Ob(key_of("C14-B5", b.path, "both-directions"), sorted(kinds) == [False, True], "one case grows, one shrinks", b.loc())
 
 
 def ret_ok_values(res):
